@@ -103,6 +103,8 @@ fn sampled(rng: &mut Rng) -> Scenario {
         let sign = if rng.bool(0.8) { d } else { -d };
         // RK4: first_step is the fixed step; keep the run below a few thousand steps
         let mag = if m == Meth::RK4 { mag.max(span / 2000.0) } else { mag };
+        // a first step below the resolution of x0 does not move x at all: not a valid configuration
+        let mag = mag.max(64.0 * EPS * sc.x0.abs().max(sc.xend.abs()));
         sc.first_step = Some(sign * mag);
     }
     if rng.bool(0.5) && m != Meth::RK4 {
@@ -112,6 +114,23 @@ fn sampled(rng: &mut Rng) -> Scenario {
             2 => span / rng.int(1, 12) as f64,
             _ => span * rng.logu(0.01, 1.0),
         });
+    }
+    if m.implicit() && rng.bool(0.15) {
+        // a valid lower bound on the step (below max_step and the interval)
+        let cap = sc.max_step.unwrap_or(f64::INFINITY).min(span);
+        sc.min_step = Some(cap * rng.logu(1e-4, 0.5));
+    }
+    let mut ulp_regime = false;
+    if rng.bool(0.03) {
+        ulp_regime = true;
+        // an interval of a few (to a few thousand) ulps at a large abscissa
+        let big = rng.sign() * rng.logu(1e3, 1e9);
+        sc.x0 = big;
+        sc.xend = big + d * big.abs() * rng.logu(3e-16, 1e-12);
+        sc.max_step = None;
+        sc.min_step = None;
+        sc.first_step = if m == Meth::RK4 { Some(sc.xend - sc.x0) } else { None };
+        sc.events.clear();
     }
     sc.dense = rng.bool(0.5);
     if rng.bool(0.3) {
@@ -149,8 +168,10 @@ fn sampled(rng: &mut Rng) -> Scenario {
         sc.events = vec![EventSpec { kind: EvKind::Time { c: stop }, scale: 1.0, dir: Dir::All, terminal: Some(1) }];
         return sc;
     }
-    // early stops other than terminal events
-    match rng.int(0, 9) {
+    // early stops other than terminal events (not in the ulp regime: there a solver may reach xend
+    // without noticing and re-evaluate the RHS at xend once more; a fault injected at that moment
+    // makes an honest failure look like 'covered but not Success')
+    match if ulp_regime { 9 } else { rng.int(0, 9) } {
         0 | 1 => sc.max_steps = Some(rng.int(1, 60)),
         2 | 3 => {
             sc.faults.push(FaultSpec { trigger: Trigger::From(rng.int(2, 300) as u64), kind: *rng.pick(&[FaultKind::NanAll, FaultKind::PosInf]), comp: 0, mag: 1.0 });
